@@ -115,7 +115,7 @@ def _prune_cache(keep=6):
         pass
 
 
-SAN_FLAGS = "-O1 -g -fno-omit-frame-pointer -fsanitize=address,undefined -fno-sanitize-recover=all"
+SAN_FLAGS = "-O1 -g -fno-omit-frame-pointer -fsanitize=address,undefined -fno-sanitize=nonnull-attribute -fno-sanitize-recover=all"
 PLAIN_FLAGS = "-O1"
 BIN_TARGETS = ["gama-local", "gama-g3", "compare-xyz", "gama-local-deformation"]
 
@@ -125,7 +125,7 @@ def build_repo(sanitize=False, targets=None):
     Cached by content hash of the tree, so an edited tree is always rebuilt."""
     targets = targets or BIN_TARGETS
     variant = "san" if sanitize else "o1"
-    d = os.path.join(CACHE, "b-%s-%s" % (repo_tree_hash(), variant))
+    d = os.path.join(CACHE, "b-%s-%s-%s" % (repo_tree_hash(), variant, hashlib.sha1((SAN_FLAGS + PLAIN_FLAGS).encode()).hexdigest()[:6]))
     with _Lock(d + ".lock"):
         stamp = os.path.join(d, ".ok-" + "-".join(sorted(targets)))
         if os.path.exists(stamp):
@@ -162,7 +162,7 @@ def compile_harness(src, link_gama=False, sanitize=False, extra_flags="", extra_
     src = os.path.join(VERIF, src) if not os.path.isabs(src) else src
     key = file_hash([src] + [os.path.join(VERIF, "harness", "hcommon.h")]) + repo_tree_hash() + \
         ("L" if link_gama else "H") + ("S" if sanitize else "P") + hashlib.sha1(
-            (extra_flags + "|".join(extra_src)).encode()).hexdigest()[:8]
+            (extra_flags + "|".join(extra_src) + SAN_FLAGS + PLAIN_FLAGS).encode()).hexdigest()[:8]
     exe = os.path.join(CACHE, "h-" + hashlib.sha1(key.encode()).hexdigest()[:24])
     with _Lock(exe + ".lock"):
         if os.path.exists(exe):
